@@ -391,6 +391,18 @@ def sweep(run, tier, rng):
                     oracle=synth_kind or "real pool", seed_case=t)
         try:
             res = run_step(st, n_particles, ess_ratio, vv, synth)
+            if t % 5 == 4 and synth is None:
+                # put the ESS target a fraction of a per cent ABOVE the pool's ESS at beta = 1 (and start from a temperature whose ESS is
+                # above it): the step must stop short of 1 - "almost reached" is not reached
+                e1 = float(res["real"](1.0)[1])
+                e0 = float(res["real"](0.0)[1])
+                if e1 * 1.01 < e0:
+                    ess_ratio = e1 * (1.0 + rng.choice([0.001, 0.004, 0.009])) / n_particles
+                    st.set_current("beta", 0.0)
+                    st.set_current("iter", T)
+                    what = dict(what, ess_ratio=ess_ratio, beta_prev=0.0, target_just_above_ess_at_one=True)
+                    res = run_step(st, n_particles, ess_ratio, vv, None)
+                    run.count("target within 1% above ESS(1)")
         except Exception as e:
             run.fail("reweight-raises", f"Reweighter.run raised {type(e).__name__}: {e}", **what)
             continue
